@@ -8,9 +8,10 @@ Layer-2 slice needed for C08: an actor context owning a `chrono.Scheduler` (`MV.
   system message to the actor's own mailbox (`deliverySystemMessage(ctx.ref, …)`): a `Firing` in
   `sched.log` is that post; `post` moves new firings into `mbox` (FIFO).
 * the callback runs when the actor takes the message (`processMessage … case onSchedulerFunc: m()`),
-  which is a `Turn`.  `ProcessSystemMessage` has no status test: a callback posted before the actor
-  terminated still runs afterwards (`Turn.live = false`), and one posted before a restart cleared the
-  scheduler runs in the next incarnation (`Turn.inc ≠` the incarnation that registered the task).
+  which is a `Turn`.  Since `bb50462` `processMessage` drops system messages once the status is
+  terminated, so a callback posted before the actor terminated no longer runs afterwards; one posted
+  before a restart cleared the scheduler still runs in the next incarnation (`Turn.inc ≠` the
+  incarnation that registered the task) — nothing stamps the message with its incarnation.
 * every `processMessage` begins with `StopTask(":idle:")` and ends with `AfterTask(":idle:", idle)`
   when an idle deadline is configured (`refreshIdleDeadline`); the idle / expire callbacks call
   `Terminate(self, gracefully)`.
@@ -52,6 +53,8 @@ structure Actor where
   regInc : Nat → Nat        -- ghost: incarnation that registered task object `i`
   idle : Nat                -- idle deadline in ms, 0 = none
   expireAt : Option Nat     -- `ctx.expireTime`
+  gterm : Bool              -- a graceful `OnTerminate` (sent by the idle / expire callback) is queued as a
+                            -- USER message: it is taken after the system messages (callbacks) queued so far
 
 /-- `refreshIdleDeadline(true)` -/
 def idleStop (a : Actor) : Actor :=
@@ -71,7 +74,7 @@ def init (tick idle : Nat) (expire : Nat) : Actor :=
   -- the `OnLaunch` turn arms the idle deadline
   idleStart
     { sched := s, seen := 0, mbox := [], turns := [], live := true, inc := 0, regInc := fun _ => 0,
-      idle := idle, expireAt := if expire > 0 then some expire else none }
+      idle := idle, expireAt := if expire > 0 then some expire else none, gterm := false }
 
 /-- move the firings the scheduler produced since the last call into the mailbox -/
 def post (a : Actor) : Actor :=
@@ -94,17 +97,18 @@ def restart (a : Actor) : Actor :=
     | none => a1
   idleStart (idleStop a2)
 
-/-- one callback message taken from the mailbox -/
+/-- one callback message taken from the mailbox.  `processMessage` refreshes the idle deadline
+    around every system message; since `bb50462` it drops every system message except `Watch` once the
+    status is terminated, so the callback itself (`m()`) only runs while the actor is live. -/
 def turnCb (a : Actor) (f : Firing) : Actor :=
   let a1 := idleStop a
   let nm := (a.sched.objs f.id).name
   let a2 : Actor :=
-    if nm = idleName ∨ nm = expireName then a1
+    if !a.live ∨ nm = idleName ∨ nm = expireName then a1
     else { a1 with turns := { id := f.id, time := a.sched.now, inc := a.inc, live := a.live } :: a1.turns }
   let a3 := idleStart a2
-  -- the idle / expire callback: `Terminate(self, true)` → the graceful user message (a turn of its
-  -- own: stop/start of `:idle:`) → system `onTerminate`
-  if (nm = idleName ∨ nm = expireName) ∧ a.live then terminate (idleStop (idleStart (idleStop a3))) else a3
+  -- the idle / expire callback: `Terminate(self, true)` = `Tell(self, onGracefullyTerminate)`, a user message
+  if (nm = idleName ∨ nm = expireName) ∧ a.live then { a3 with gterm := true } else a3
 
 def drain (a : Actor) : Nat → Actor
   | 0 => a
@@ -113,8 +117,17 @@ def drain (a : Actor) : Nat → Actor
     | [] => a
     | f :: rest => drain (turnCb { a with mbox := rest } f) fuel
 
-/-- all queued callbacks are processed (each turn can post nothing by itself) -/
-def settle (a : Actor) : Actor := let a := post a; drain a a.mbox.length
+/-- the queued graceful `OnTerminate` user message: a turn of its own (stop/start of `:idle:`) that
+    sends the system `onTerminate`, whose turn terminates the actor -/
+def graceful (a : Actor) : Actor :=
+  if a.gterm then
+    let a1 : Actor := { a with gterm := false }
+    if a1.live then terminate (idleStop (idleStart (idleStop a1))) else a1
+  else a
+
+/-- all queued callbacks are processed (system messages first; each turn can post nothing by
+    itself), then the queued graceful termination, if any -/
+def settle (a : Actor) : Actor := let a := post a; graceful (drain a a.mbox.length)
 
 /-- one millisecond of an idle actor -/
 def msIdle (a : Actor) : Actor := settle { a with sched := msStep a.sched }
@@ -162,6 +175,27 @@ def crash (a : Actor) (d : Nat) : Option Actor :=
   -- the failing user turn, then the `onRestart` system turn
   let a1 := settle (idleStart (idleStop a))
   some (settle (restart (inHandler (idleStop a1) d)))
+
+/-- the operations of the suite `actor-timers` -/
+inductive AOp where
+  | tell (act : Act)
+  | busy (d : Nat)
+  | term (d : Nat)
+  | crash (d : Nat)
+  | wait (d : Nat)
+  deriving Repr
+
+/-- one operation; a message to a terminated actor is a dead letter (state unchanged) -/
+def astep (a : Actor) : AOp → Actor
+  | .tell act => (tell a act).getD a
+  | .busy d => (busy a d).getD a
+  | .term d => term a d
+  | .crash d => (crash a d).getD a
+  | .wait d => wait a d
+
+def arun (a : Actor) : List AOp → Actor
+  | [] => a
+  | op :: ops => arun (astep a op) ops
 
 /-- callbacks that ran, per user registration (task objects with a user name), in registration order -/
 def userIds (a : Actor) : List Nat :=
